@@ -192,19 +192,19 @@ theorem torn_reconnectLink (l : FLink F) (now : Nat) : Torn l (Hk.reconnectLink 
   exact gk
 
 /-- One housekeeping tick on one link (the closed form of `hk_link`). -/
-theorem hkOp_guard (classic : Bool) (now : Nat) (pending g t : Option Nat) (j : Nat) (l : FLink F) :
-    KeepOrTorn l (Hk.withSent (Hk.hkLink classic now pending j (Hk.graceFix g now j l)) t) := by
+theorem hkOp_guard (classic : Bool) (now : Nat) (pending g t : Option Nat) (fails : Bool) (j : Nat) (l : FLink F) :
+    KeepOrTorn l (Hk.withSent (Hk.hkLink classic now pending fails j (Hk.graceFix g now j l)) t) := by
   have hg := gk_graceFix g now j l
   generalize Hk.graceFix g now j l = x at hg ⊢
   refine KeepOrTorn.then_keep ?_ (gk_withSent _ t)
   refine KeepOrTorn.of_keep hg ?_
   have hr : Torn x (Hk.reconnectLink x now) := torn_reconnectLink x now
   have hrs : Torn x (Hk.withSent (Hk.reconnectLink x now) (some now)) := hr.then_keep (gk_withSent _ _)
-  -- (the extra alternatives cover a failed socket re-creation = `mark_for_recovery` after `record_attempt`,
-  -- should the reconnect branch of `hkLink` grow one)
+  -- the extra alternatives cover a failed socket re-creation (`Hk.failedLink`) = `mark_for_recovery`
+  -- after `record_attempt`
   have hm : Torn x (x.recordAttempt now).markForRecovery :=
     Torn.of_keep (gk_recordAttempt x now) (torn_markForRecovery _)
-  unfold Hk.hkLink
+  unfold Hk.hkLink Hk.attemptLink Hk.failedLink
   repeat' split
   all_goals first
     | exact .inr hrs
@@ -231,10 +231,10 @@ theorem flush_guard (s : Sys F) (now j : Nat) (l l' : FLink F) (hl : s.links[j]?
 /-- **`hk`**: unchanged, or the link was re-initialised for a reconnect attempt. -/
 theorem hk_guard (s : Sys F) (now j : Nat) (l l' : FLink F) (hl : s.links[j]? = some l)
     (hl' : (handleHousekeeping s now).1.links[j]? = some l') : KeepOrTorn l l' := by
-  obtain ⟨p, g, t, h⟩ := hk_link s now j l hl
+  obtain ⟨p, g, t, fails, h⟩ := hk_link s now j l hl
   rw [h] at hl'
   cases hl'
-  exact hkOp_guard _ _ _ _ _ _ _
+  exact hkOp_guard _ _ _ _ _ _ _ _
 
 /-- **`setCfg` / `crit` / `failNext`** (any event that is not an arm of the loop): nothing. -/
 theorem cfg_guard (s : Sys F) (e : Ev) (he : isArm e = false) (j : Nat) (l l' : FLink F)
